@@ -30,7 +30,10 @@ def lib():
 
     from bitarray import bitarray
     from bitarray.util import int2ba
+    from okdmr.dmrlib.etsi.crc.crc32 import CRC32
+    from okdmr.dmrlib.etsi.crc.crc9 import CRC9
     from okdmr.dmrlib.etsi.fec.bptc_196_96 import BPTC19696
+    from okdmr.dmrlib.etsi.layer2.elements.crc_masks import CrcMasks
     from okdmr.dmrlib.etsi.fec.trellis import Trellis34
     from okdmr.dmrlib.etsi.layer2.burst import Burst
     from okdmr.dmrlib.etsi.layer2.elements.burst_types import BurstTypes
